@@ -11,6 +11,8 @@
   notes/status/C14.md.
 -/
 import Sky.C14.Spec
+import Sky.C14.Lemmas
+import Sky.C10.ECDSA
 namespace Sky.Props.C14
 open Sky Sky.C14 Sky.Crypto.Secp256k1
 
@@ -163,6 +165,45 @@ theorem newPubKey_total (b : Bytes) : ∀ p, newPubKey b ≠ .panic p := by
   split
   · intro h; cases h
   · split <;> (intro h; cases h)
+
+/-- **compression round trip**: every point on the curve is recovered from its 33-byte encoding (so
+`parsePub` accepts exactly the encodings of curve points, and `compress` is injective on them).
+Hypothesis: the field prime is prime (stated, not proved — see Sky.C14.Lemmas). -/
+theorem compress_decompress (hp : Nat.Prime P) (x y : Nat) (h : onCurve (.aff x y) = true) :
+    parsePub (compress (.aff x y)) = some (.aff x y) :=
+  Sky.C14.compress_decompress hp x y h
+
+/-- the 32-byte big-endian encoding of a coordinate is exact -/
+theorem coordinate_roundtrip (x : Nat) (hx : x < 2 ^ 256) : ofBE (toBE32 x) = x ∧ (toBE32 x).length = 32 :=
+  ⟨Sky.C14.ofBE_toBE32 x hx, Sky.C14.toBE32_length x⟩
+
+/-! ### ECDSA, recovery, ECDH in the abstract prime-order group (from the C10 development) -/
+
+section abstract
+open Sky.C10.ECDSA
+variable {n : ℕ} [Fact n.Prime] {G : Type*} [AddCommGroup G] [Module (ZMod n) G]
+
+/-- a signature produced with secret d and nonce k verifies against the public key d•g -/
+theorem verify_sign (g : G) (x : G → ZMod n) (d z k : ZMod n) (hk : k ≠ 0)
+    (hr : x (k • g) ≠ 0) (hs : sOf d z k (x (k • g)) ≠ 0) :
+    verify g x (pub g d) z (x (k • g)) (sOf d z k (x (k • g))) :=
+  Sky.C10.ECDSA.verify_sign g x d z k hk hr hs
+
+/-- … and public-key recovery from the nonce point returns d•g -/
+theorem recover_sign (g : G) (x : G → ZMod n) (d z k : ZMod n) (hk : k ≠ 0) (hr : x (k • g) ≠ 0) :
+    recoverFrom g (k • g) z (x (k • g)) (sOf d z k (x (k • g))) = pub g d :=
+  Sky.C10.ECDSA.recover_sign g x d z k hk hr
+
+/-- conversely, whatever verifies against Q recovers Q -/
+theorem recover_of_verify (g : G) (Q : G) (z r s : ZMod n) (hr : r ≠ 0) (hs : s ≠ 0) :
+    recoverFrom g ((z * s⁻¹) • g + (r * s⁻¹) • Q) z r s = Q :=
+  Sky.C10.ECDSA.recover_of_verify g Q z r s hr hs
+
+/-- Diffie–Hellman: a•(b•g) = b•(a•g) -/
+theorem ecdh_comm (g : G) (a b : ZMod n) : a • pub g b = b • pub g a :=
+  Sky.C10.ECDSA.ecdh_comm g a b
+
+end abstract
 
 /-! ### deterministic key sequence -/
 
